@@ -45,6 +45,7 @@ type JobResult struct {
 	SolverMs    int64                   `json:"solver_ms"`
 	SolverRes   map[string]int          `json:"solver_results"`
 	SolverErrs  int                     `json:"solver_errors"`
+	SolverCrash int                     `json:"solver_crashes"`
 	Solver      string                  `json:"solver"`
 	Funcs       map[string]int          `json:"funcs"`
 	Replaced    []string                `json:"replaced"`
@@ -213,6 +214,7 @@ func runJob(ld *loaded, ph *PkgHarness, job Job) (res JobResult) {
 	res.Viol, res.Inconcl, res.BoundHit = e.Viol, e.Inconcl, e.BoundHit
 	res.Reach, res.ReachModels, res.Samples = e.Reach, e.ReachModels, e.Samples
 	res.SolverCalls, res.SolverMs, res.SolverRes, res.SolverErrs, res.Solver = zi.Z.Calls, zi.Z.Time.Milliseconds(), zi.Z.Res, zi.Z.Errors, zi.Z.Name
+	res.SolverCrash = zi.Z.Crashes
 	res.Funcs = map[string]int{}
 	for fn, n := range zi.FuncHits {
 		if fn.Pkg == nil || !strings.HasPrefix(fn.Pkg.Pkg.Path(), modulePath) {
